@@ -367,11 +367,28 @@ def run(ctx, deep=False):
             gi.append("same")
             gm.append("same" if L.same_rows(a, b) else "differs:%s" % json.dumps(L.first_diff(a, b)))
         ctx.correspond("corr/c01:sqlite-grammar(real SQLite grouping == model sqlite table)", gc, gi, gm)
-        # model-level verdicts per dialect (evidence only)
-        vout = ctx.driver(["expr parse %s %s" % (c["dialect"], " ".join(L.wire(c["u"]))) for c in cases[:: max(1, len(cases) // 4000)]])
-        for c, o in zip(cases[:: max(1, len(cases) // 4000)], vout):
+        # model-level verdicts per dialect: wb / reading == tree, and the general theorem's
+        # hypotheses (Core, WG) and conclusion (ok) evaluated on the built element
+        step = max(1, len(cases) // 6000)
+        vcases = cases[::step]
+        vout = ctx.driver(["expr parse %s %s" % (c["dialect"], " ".join(L.wire(c["u"]))) for c in vcases])
+        bad_wg, bad_thm = [], []
+        for c, o in zip(vcases, vout):
             p = o.split(" ")
-            ctx.count("model-verdict/%s=%s" % (c["dialect"], "wb" if p[:2] == ["ok", "1"] else ("not-wb" if p[0] in ("ok", "noparse") else p[0])))
+            if p[0] not in ("ok", "noparse"):
+                ctx.count("model-verdict/%s=%s" % (c["dialect"], p[0]))
+                continue
+            wbv = p[1] == "1"
+            flags = p[-1]
+            ctx.count("model-verdict/%s=%s" % (c["dialect"], "wb" if wbv else "not-wb"))
+            if flags[0] == "1":
+                ctx.count("model-verdict/core-fragment")
+                if flags[1] != "1":
+                    bad_wg.append(c)
+                if flags[1] == "1" and not (flags[2] == "1" and wbv and p[0] == "ok" and p[2] == "1"):
+                    bad_thm.append(c)
+        ctx.obligation("model: every core element built by the constructors is well grouped (WG)", not bad_wg, json.dumps(bad_wg[:2]))
+        ctx.obligation("model: core + WG elements are ok / read back (executable instance of core_render_read_back)", not bad_thm, json.dumps(bad_thm[:2]))
     orc.close()
     ctx.exhaustive = False
 
